@@ -50,6 +50,9 @@ TraceStep ==
         /\ \A f \in fails : PrintT(<<"FAIL", (tid * 10000) + l, f>>)
         /\ (~last \/ fails # {} \/ AnchorDrift(files', site) = {}
             \/ PrintT(<<"DRIFT", tid, Cardinality(AnchorDrift(files', site))>>))
+        \* sites built by Site's constructor actions (doc = 1): recorded pages = documented pages?
+        /\ (~last \/ fails # {} \/ "doc" \notin DOMAIN site \/ ModelDiff(files', links', site) = {}
+            \/ \A p \in ModelDiff(files', links', site) : PrintT(<<"MODEL", tid, PathStr(p)>>))
 
 TraceSpec == TraceInit /\ [][TraceStep]_tvars
 
